@@ -128,6 +128,7 @@ macro_rules! run_family {
 					// number of front or back steps, so it must agree with that many single steps
 					b'f' | b'g' => {
 						let n = if c == b'f' { 1 } else { 2 };
+						let overshoot = model.len() < n + 1;
 						let got = it.nth(n);
 						for _ in 0..n {
 							model.pop_front();
@@ -136,9 +137,16 @@ macro_rules! run_family {
 						if let Some(v) = cmp(k, "nth", got.map(|g| g.as_bytes()), want) {
 							return Ok(Some(v));
 						}
+						// nth(k) beyond what remains must yield None; whether it also has to leave the
+						// iterator exhausted is the trait's convention, not C12's text: nothing further
+						// is demanded of this iterator
+						if overshoot {
+							break;
+						}
 					}
 					b'b' | b'c' => {
 						let n = if c == b'b' { 1 } else { 2 };
+						let overshoot = model.len() < n + 1;
 						let got = it.nth_back(n);
 						for _ in 0..n {
 							model.pop_back();
@@ -146,6 +154,9 @@ macro_rules! run_family {
 						let want = model.pop_back();
 						if let Some(v) = cmp(k, "nth_back", got.map(|g| g.as_bytes()), want) {
 							return Ok(Some(v));
+						}
+						if overshoot {
+							break;
 						}
 					}
 					// consuming steps: they take the iterator itself (not by_ref(), which would bypass an
@@ -244,7 +255,15 @@ macro_rules! run_family {
 					b'B' => ("normalized.next_back", it.next_back().map(|s| rng_of(s.as_bytes())), model.pop_back()),
 					b'f' | b'g' => {
 						let n = if c == b'f' { 1 } else { 2 };
+						let overshoot = model.len() < n + 1;
 						let g = it.nth(n).map(|s| rng_of(s.as_bytes()));
+						if overshoot {
+							// see above: only the None is demanded
+							if g.is_some() {
+								return Ok(Some(fail("normalized_item", k, "normalized.nth", format!("step {}: nth({}) yielded an item although only {} remain", k, n, model.len()), text, None, None)));
+							}
+							break;
+						}
 						for _ in 0..n {
 							model.pop_front();
 						}
@@ -252,7 +271,14 @@ macro_rules! run_family {
 					}
 					b'b' | b'c' => {
 						let n = if c == b'b' { 1 } else { 2 };
+						let overshoot = model.len() < n + 1;
 						let g = it.nth_back(n).map(|s| rng_of(s.as_bytes()));
+						if overshoot {
+							if g.is_some() {
+								return Ok(Some(fail("normalized_item", k, "normalized.nth_back", format!("step {}: nth_back({}) yielded an item although only {} remain", k, n, model.len()), text, None, None)));
+							}
+							break;
+						}
 						for _ in 0..n {
 							model.pop_back();
 						}
